@@ -43,8 +43,8 @@ impl MemfsFile {
 //@ item sync file=src/sys/fs/memfs/file.rs block="impl MemfsFile" fn=sync props=C07,C06,C03,C12
 //@ sig pub(crate) fn sync(&mut self) -> io::Result<()>
 //@ rw R11 1 ⟦let mut guard = fs.write_guard();⟧ => ⟦⟧
-//@ rw R4 1 ⟦f.data.clone_from(&self.data);⟧ => ⟦vec_clone_from(&mut f.data, &self.data);⟧
-//@ rw R5 1 re⟦format!\((?:[^()]|\([^()]*\))*\)⟧ => ⟦io::Msg{}⟧
+//@ rw R4 * ⟦f.data.clone_from(&self.data);⟧ => ⟦vec_clone_from(&mut f.data, &self.data);⟧
+//@ rw R5 * re⟦format!\((?:[^()]|\([^()]*\))*\)⟧ => ⟦io::Msg{}⟧
     pub fn sync(&mut self, guard: &mut MemfsGuard) -> (r: io::Result<()>)
         requires old(self).bound_ok(),
         ensures
@@ -67,7 +67,7 @@ impl MemfsFile {
 
 //@ item read file=src/sys/fs/memfs/file.rs block="impl io::Read for MemfsFile" fn=read props=C07,C12,C06
 //@ sig fn read(&mut self, buf: &mut [u8]) -> io::Result<usize>
-//@ rw R7 1 re⟦buf\[\.\.(\w+)\]\.copy_from_slice\(&self\.data\.as_slice\(\)\[(\w+)\.\.([^\]]+)\]\);⟧ => ⟦slice_copy_to(buf, \1, self.data.as_slice(), \2, \3);⟧
+//@ rw R7 * re⟦buf\[\.\.(\w+)\]\.copy_from_slice\(&self\.data\.as_slice\(\)\[(\w+)\.\.([^\]]+)\]\);⟧ => ⟦slice_copy_to(buf, \1, self.data.as_slice(), \2, \3);⟧
     pub fn read(&mut self, buf: &mut [u8]) -> (r: io::Result<usize>)
         ensures
             r is Ok,                                                                           //@ clause read.ok [C07]
@@ -97,7 +97,7 @@ impl MemfsFile {
 
 //@ item write file=src/sys/fs/memfs/file.rs block="impl io::Write for MemfsFile" fn=write props=C07,C06,C12
 //@ sig fn write(&mut self, buf: &[u8]) -> io::Result<usize>
-//@ rw R4 1 ⟦self.data.write(buf)⟧ => ⟦vec_write(&mut self.data, buf)⟧
+//@ rw R4 * ⟦self.data.write(buf)⟧ => ⟦vec_write(&mut self.data, buf)⟧
     pub fn write(&mut self, buf: &[u8]) -> (r: io::Result<usize>)
         ensures r is Ok, r->Ok_0 == buf@.len(),
                 final(self).data@ == old(self).data@ + buf@,     //@ clause write.appends_all [C07,C06]
